@@ -9,6 +9,22 @@ def run(ctx):
     mc = vlib.tlc_or_die(ctx, "ContainersMC", "ContainersMC.cfg" if q else "ContainersMC_thorough.cfg", workers=vlib.NCPU, timeout=3000, xmx="12g")
     for inv in mc.violated:
         ctx.violations.append({"clause": "Model:" + inv, "what": "the ring model does not refine the abstract list: " + mc.out[-1200:], "sites": []})
+    # unbounded number of operations: Apalache discharges an inductive invariant of the ring (spec/RingInd.tla, capacities up to 8):
+    # Init => IndInv always, IndInv /\ Next => IndInv' in the thorough tier (about 3 minutes)
+    import shutil, subprocess
+    apa = {}
+    if shutil.which("apalache-mc"):
+        steps = [("base", ["--init=Init", "--length=0"])] + ([] if q else [("step", ["--init=IndInvInit", "--length=1"])])
+        for name, args in steps:
+            p = subprocess.run(["timeout", "3000", "apalache-mc", "check", "--cinit=CInit", "--inv=IndInv", "--out-dir=" + ctx.path("apalache_" + name)] + args + [vlib.SPEC + "/RingInd.tla"],
+                               capture_output=True, text=True, cwd=ctx.work)
+            out = p.stdout + p.stderr
+            ok = "The outcome is: NoError" in out
+            apa[name] = "NoError" if ok else ("Error" if "The outcome is: Error" in out else "not decided (exit %d)" % p.returncode)
+            if "The outcome is: Error" in out:
+                ctx.violations.append({"clause": "Model:RingIndInv_" + name, "what": "Apalache: the ring invariant is not inductive (%s): %s" % (name, out[-800:]), "sites": []})
+            elif not ok:
+                ctx.notes.append("apalache %s did not decide: %s" % (name, out[-300:]))
     n = vlib.NCPU
     ld, td = (8, 6) if q else (10, 7)
     shards = [["list", ld, i, n] for i in range(n)] + [["table", td, i, 4] for i in range(4)] + [["rand", ctx.seed * 7 + i, 400 if q else 6000] for i in range(4)]
@@ -39,7 +55,7 @@ def run(ctx):
                 "add a-NUL-b, clear} for add/addn/addk with snapshots and get_c/get/get_mem lookups of {a A b ab}; primitives: all pairs of strings of length <= %d over {a A b NUL} "
                 "(compare x3, search x3, prefix x2, append with/without growth), all strings <= 4 over {a A SP TAB LF b} (trim, lower-case), 3600 numerals around 2^31/2^63/65535 with LWS/zeros/junk "
                 "(pint base 10/16, Content-Length, chunk length), random pairs over all bytes" % (ld, td, pl),
-        "samples": samples, "exhaustive": True,
+        "samples": samples, "exhaustive": True, "apalache_inductive_invariant": apa,
         "model": "ContainersMC: Ring (first,last,size,max, re-linearising growth) refines Seq for all operation sequences within (Caps, MaxOps, MaxLen)",
     }, assumptions=["numeric results are logged as decimal digit lists and compared as numerals (TLC integers are 32-bit)",
                     "lastlen of bstr_util_mem_to_pint for a fully consumed region is pinned to Len+1 by the project's own test and is not judged"], vacuous=vac)
